@@ -12,7 +12,7 @@ import (
 
 // the e-mail validator the proxy installs: domain rule OR allow-list file, "*" allows all,
 // the empty e-mail is never valid, comparison is case-insensitive
-// verif: unwind=8 strlen=8 concretize=8 havoc=watcher.WatchFileForUpdates
+// verif: unwind=8 strlen=8 concretize=8 havoc=watcher.WatchFileForUpdates also=C14
 func vh_C08_validator() {
 	recs := [][]string{{"Al@X.io"}, {"bo@y.io"}}
 	verifCSVFile(vEmailsFile, recs, false)
